@@ -243,6 +243,7 @@ class RRTRun:
         pp.random = self.rnd
         origin = tm(list(cfg["origin"]))
         self.origin6 = pos6(origin)
+        self.origin_tm = origin          # the caller's own object (kept to edit it later: the planner must not depend on it)
         pl = pp.RRTStar(origin)
         pl.bounds = [list(b) for b in cfg["bounds"]]
         pl.minimum_distance = cfg["min"]
@@ -371,6 +372,7 @@ class RRTRun:
         self._tree = [self.origin6]
         self._arr = np.array([self.origin6])
         self._accepted = []
+        last_path = last_goal = None
         for ph, (n_it, goal) in enumerate(phases):
             if isinstance(goal, dict):
                 if goal.get("goal_from_node") is not None and len(self._tree) > 1:
@@ -391,6 +393,18 @@ class RRTRun:
                     self.box_list = [(pos6(o[0])[:3], pos6(o[1])[:3]) for o in pl.obstructions]
                     self.epoch += 1
                     self.probes["obstruction_replaced_between_calls"] += 1
+                for what in extra[ph - 1].get("mutate", ()):
+                    # the caller re-uses ITS objects between two calls: the start pose it constructed the planner with,
+                    # the way-points it got back, the previous goal -- none of this may move the tree
+                    objs = {"origin": [self.origin_tm], "path": list(last_path or [])[:-1], "goal": [last_goal]}[what]
+                    for o_ in objs:
+                        try:
+                            o_.TAA[0, 0] += 0.77
+                            o_.TAA[4, 0] -= 0.31
+                            o_.TAAtoTM()
+                        except Exception:
+                            pass
+                    self.probes["caller_edited_its_" + what] += 1
                 self.rnd.budget += 200 * n_it + 600
                 pp.random = self.rnd
                 self.probes["second_call_on_same_planner"] += 1
@@ -413,6 +427,7 @@ class RRTRun:
             self.total_iters += n_it
             self.steps_done = self.total_iters
             self._check_history(path)
+            last_path, last_goal = path, goal
         return self
 
     # ---- running invariant ---------------------------------------------------------
@@ -829,6 +844,8 @@ def gen_trace(seed):
         # the same planner asked again: another goal, usually a much smaller budget (coarse run, then a short refinement)
         cfg["second"] = {"iterations": pick_weighted(r, [(1, 1.0), (2, 2.0), (3, 2.0), (r.randint(4, 12), 2.0), (r.randint(13, 60), 1.0)]),
                          "goal": [round(r.uniform(-B, B), 3) for _ in range(3)] + [round(r.uniform(-rot, rot), 3) if rot else 0.0 for _ in range(3)]}
+    if cfg.get("second") and r.random() < 0.4:
+        cfg["second"]["mutate"] = sorted(r.sample(["origin", "path", "goal"], r.randint(1, 3)))
     if cfg.get("second") and r.random() < 0.3:
         cfg["second"]["goal_from_node"] = {"index": r.randrange(1000), "decimals": r.choice([5, 5, 6, 12])}
     if r.random() < 0.03:
@@ -874,7 +891,7 @@ ASSUMPTIONS = [
 EXPECTED_PROBES = ["rejected_for_min", "rejected_for_max", "rejected_for_collision", "rejected_exact_duplicate",
                    "tie_in_first_nearest", "tie_at_kth_neighbour", "parent_not_nearest", "cheaper_candidate_collides",
                    "k_exceeds_tree_size", "terrain_generated", "iterations_1", "iterations_2", "path_goal_nearest_root",
-                   "path_depth_ge4", "path_depth_ge14", "path_depth_ge30", "second_call_on_same_planner", "obstruction_replaced_between_calls", "goal_is_rounded_tree_node", "custom_callbacks", "builtin_pipeline", "arc_distance_mode"]
+                   "path_depth_ge4", "path_depth_ge14", "path_depth_ge30", "second_call_on_same_planner", "obstruction_replaced_between_calls", "goal_is_rounded_tree_node", "caller_edited_its_origin", "caller_edited_its_path", "custom_callbacks", "builtin_pipeline", "arc_distance_mode"]
 
 
 def warmup():
